@@ -235,6 +235,14 @@ def _own_nodes(fnode):
         stack.extend(ast.iter_child_nodes(n))
 
 
+# evaluators that by the repository's own convention return the mantissa only
+EXP_DROP_EXEMPT = {
+    "TensorNetwork.item": "raw accessor of the single remaining tensor: the repository's own callers and tests compute "
+                          "`tn.item() * 10**tn.exponent` (tests/test_tensor/test_tn2d/test_core.py::test_contract_hotrg), "
+                          "so folding the exponent in would double count — not one of C01's evaluation routes",
+}
+
+
 def rule_exp_drop(ctx, floor=12):
     r = RuleResult(
         "exp-drop",
@@ -299,7 +307,9 @@ def rule_exp_drop(ctx, floor=12):
         if not touched:
             continue
         evaluators += 1
-        if bad_here:
+        if bad_here and f.qualname in EXP_DROP_EXEMPT:
+            r.exempt(f.qualname, EXP_DROP_EXEMPT[f.qualname])
+        elif bad_here:
             for n, text in bad_here:
                 r.bad(Finding(
                     "exp-drop", f.qualname,
